@@ -354,7 +354,7 @@ def spin_range(spin: Fraction) -> list[Fraction]:
     return out
 
 
-def synthetic_reaction(rng, max_transitions: int = 14, nfs: int | None = None, max_spin2: int = 3):
+def synthetic_reaction(rng, max_transitions: int = 14, nfs: int | None = None, max_spin2: int = 4):
     """A ReactionInfo built directly from qrules dataclasses (no physics constraints)."""
     from qrules.particle import Particle
     from qrules.quantum_numbers import InteractionProperties
@@ -363,7 +363,10 @@ def synthetic_reaction(rng, max_transitions: int = 14, nfs: int | None = None, m
 
     nfs = nfs or rng.choice([2, 2, 3, 3, 3, 4])
     canonical = rng.random() < 0.3
-    spins = [s for s in [Fraction(0), Fraction(1, 2), Fraction(1), Fraction(3, 2)] if 2 * s <= max_spin2]
+    # spins 0 .. 2 (3/2 and 2 are rarer: they make the aligned models expensive)
+    spins = [s for s in [Fraction(0), Fraction(0), Fraction(1, 2), Fraction(1, 2), Fraction(1), Fraction(1), Fraction(3, 2), Fraction(2)]
+             if 2 * s <= max_spin2]
+    decorations = ["", "", "", "~", "*", "(1)", "+", "_a", "(2)0", "'"]  # special characters in particle names
     latex_pool = [None, None, "X^{%d}", "\\chi_{%d}", "", "Y%d", "Z"]  # "Z": several particles may share a latex name
     counter = itertools.count()
 
@@ -372,9 +375,10 @@ def synthetic_reaction(rng, max_transitions: int = 14, nfs: int | None = None, m
         lt = rng.choice(latex_pool)
         latex = None if lt is None else (lt % k if "%d" in lt else lt)
         return Particle(
-            name=f"{prefix}{k}", pid=1000 + k, latex=latex,
+            name=f"{prefix}{k}{rng.choice(decorations)}", pid=1000 + k, latex=latex,
             spin=rng.choice(spins) if spin is None else spin,
-            mass=0.0 if massless else round(0.3 + 0.137 * k, 6), width=round(0.01 * (k + 1), 6),
+            mass=0.0 if massless else round(0.3 + 0.137 * k, 6),
+            width=0.0 if rng.random() < 0.15 else round(0.01 * (k + 1), 6),  # zero widths are legitimate table values
         )
 
     initial = new_particle("I")
@@ -397,6 +401,17 @@ def synthetic_reaction(rng, max_transitions: int = 14, nfs: int | None = None, m
         if tp not in topologies:
             topologies.append(tp)
     resonances = [new_particle("R") for _ in range(rng.choice([1, 2, 3]))]
+    if rng.random() < 0.2:
+        # a second particle with another NAME and spin but the same latex, mass and width: equal-named dynamics
+        # parameters from different chains must then carry equal defaults
+        import attrs
+
+        k = next(counter)
+        base = resonances[0]
+        other_spins = [x for x in spins if x != base.spin] or [base.spin + 1]
+        shared = attrs.evolve(base, latex=base.latex or "Z")
+        resonances[0] = shared
+        resonances.append(attrs.evolve(shared, name=f"Rtwin{k}", pid=1000 + k, spin=rng.choice(other_spins)))
     transitions = set()
     attempts = 0
     target = rng.randint(1, max_transitions)
@@ -464,6 +479,8 @@ def random_config(rng, reaction, align: str | None = None, malformed: bool = Fal
     dyn = []
     for _ in range(rng.choice([0, 0, 1, 2, 3])):
         dyn.append((rng.choice(names), rng.choice(["nd", "bw", "bw", "bwff", "ff", "custom", "custom"])))
+    if rng.random() < 0.15:  # dynamics on EVERY node (initial state and every resonance)
+        dyn = [(nm, rng.choice(["bw", "custom", "custom", "ff", "bwff"])) for nm in names]
     cfg["dyn"] = dyn
     cfg["perm"] = rng.random() < 0.15
     if malformed:
